@@ -253,6 +253,54 @@ func ladder(r *engine.Rec, array bool, maxN int) {
 			}
 		}
 	}
+	// two collections of one element type sorted one after the other, every size to 140 (what a sorter keeps
+	// between calls - a scratch buffer, a pool - shows as the second sort rewriting the first collection)
+	crossN := max(maxN, 140)
+	for n := 2; n <= crossN; n++ {
+		for _, m := range []int{n, n - 1, (n + 1) / 2} {
+			c := ladderCase{Kind: kind, N: n, Shape: fmt.Sprintf("then a second collection of %d values", m), Op: "SortValues on each"}
+			xs := make([]int, n)
+			for i := range xs {
+				xs[i] = (n - i) * 2 // descending, even
+			}
+			ys := make([]int, m)
+			for i := range ys {
+				ys[i] = 100001 + (m-i)*2 // descending, odd, disjoint from xs
+			}
+			X, Y := build(xs), build(ys)
+			var view []int
+			out := rt.Protect(fuelBudget*20, func() {
+				X.SortValues()
+				view = X.AsArray()
+				Y.SortValues()
+			})
+			r.Evals++
+			r.Transitions++
+			if out.Panicked || out.Fuel {
+				r.Violation(kind+" SortValues fails (two collections, size ladder)", fmt.Sprintf("%+v: %s", c, out.Value), c)
+				break
+			}
+			wantX := make([]int, n)
+			for i := range wantX {
+				wantX[i] = (i + 1) * 2
+			}
+			wantY := make([]int, m)
+			for i := range wantY {
+				wantY[i] = 100001 + (i+1)*2
+			}
+			switch {
+			case !eqInts(X.AsArray(), wantX):
+				r.Violation(kind+" SortValues on one collection changes another collection of the same element type (size ladder)", fmt.Sprintf("%+v: the first collection is now %v", c, X.AsArray()), c)
+			case !eqInts(view, wantX):
+				r.Violation(kind+": an array view taken before another collection was sorted has changed (size ladder)", fmt.Sprintf("%+v: %v", c, view), c)
+			case !eqInts(Y.AsArray(), wantY):
+				r.Violation(kind+" SortValues wrong resulting sequence for the second of two collections (size ladder)", fmt.Sprintf("%+v: %v", c, Y.AsArray()), c)
+			default:
+				continue
+			}
+			break
+		}
+	}
 	if array {
 		return
 	}
